@@ -103,7 +103,7 @@ def env_for(run_seed: int, label: str, rnd: random.Random, default: bool = False
     if default:
         # clean room: hash seed 0, real listing order, UTF-8; the uuid stream is seeded with a constant
         # (not the real uuid4) so that even a run whose output wrongly depends on the ids replays exactly
-        return {"hashseed": "0", "uuid_seed": 1, "ls_seed": None, "locale": None}
+        return {"hashseed": "0", "uuid_seed": 1, "ls_seed": None, "locale": None, "clock_step": 1e-6}
     hs = rnd.choice(["0", str(rnd.randrange(1, 2**32 - 1)), str(rnd.randrange(1, 2**32 - 1)), "random"])
     if hs == "random":
         # "random" is what users get by default; for replayability the simulator draws the value
@@ -116,6 +116,8 @@ def env_for(run_seed: int, label: str, rnd: random.Random, default: bool = False
         "locale": "C" if rnd.random() < 0.25 else None,
         # clock skew / jump between runs (seconds): another day, another year, the past
         "clock_offset": rnd.choice([0, 0, 86400 * 3, 86400 * 400, -86400 * 30, 3600 * 11]),
+        # machine speed: simulated seconds that pass per reading of any clock (discrete-event time)
+        "clock_step": rnd.choice([1e-6, 1e-6, 1e-4, 0.05, 0.7]),
         # python -O / -OO (asserts and docstrings stripped), and how the directories are spelled
         "optimize": rnd.choice([0, 0, 0, 1, 2]),
         # another machine / another user
@@ -152,6 +154,7 @@ def run_generator(
         "uuid_seed": env.get("uuid_seed"),
         "ls_seed": env.get("ls_seed"),
         "clock_offset": env.get("clock_offset") or 0,
+        "clock_step": env.get("clock_step"),
         "fake_machine": {k_: v_ for k_, v_ in (env.get("machine") or {}).items() if k_ in ("cpu_count", "hostname", "terminal")},
         "fault": fault,
     }))
